@@ -142,7 +142,8 @@ def x_prog(ctx, case):
         ran = [e[2] for e in env.tags("cleanup_enter")]
         ctx.check(sorted(regs) == sorted(ran), "base.does-not-stop-cleanups",
                   lambda: {"registered": regs, "ran": ran, **detail()})
-    if case.get("rerun") and flavour not in ("stream", "none") and run.propagated is None:
+    if case.get("rerun") and flavour not in ("stream", "none"):
+        # (also after a run that an interrupt left through run(): the instance can be run again)
         # the same instance once more: again exactly one outcome, nothing left over from run 1
         del log.events[:]
         first_run_forced = bool(env.tags("force"))
